@@ -242,7 +242,7 @@ Proof.
     + cbv zeta.
       match goal with |- pre_inv (if _ then _ else init_fail ?x) => remember x as s2 eqn:Hs2 end.
       assert (Hc : same_ctl (set_peer_sent (peer_sent s ++ [f]) s) s2).
-      { subst s2. destruct (typed_handler cfg (f_typ f)) as [k|]; [|apply same_ctl_refl].
+      { subst s2. destruct (first_handler cfg (f_typ f)) as [k|]; [|apply same_ctl_refl].
         destruct k; try (same_ctl_tac; fail).
         eapply same_ctl_trans; [|apply ack_enqueue_same_ctl]. same_ctl_tac. }
       clear Hs2. destruct Hc as (E1 & E2 & E3 & E4 & E5 & E6 & E7 & _). st_simpl.
@@ -415,7 +415,7 @@ Proof.
     destruct (max_buffered <? f_len f); [reflexivity|].
     match goal with |- closed (if _ then _ else init_fail ?x) = true => remember x as s2 eqn:Hs2 end.
     assert (E : closed s2 = true).
-    { subst s2. destruct (typed_handler cfg (f_typ f)) as [k|]; [|assumption].
+    { subst s2. destruct (first_handler cfg (f_typ f)) as [k|]; [|assumption].
       destruct k; try assumption. unfold ack_enqueue. destruct (Nat.ltb _ _); assumption. }
     destruct (_ && _); [st_simpl_goal; assumption|reflexivity].
   - unfold step_conn_first_fail, init_fail. destruct (phase s); try assumption. reflexivity.
